@@ -76,6 +76,16 @@ MUTATIONS = [
      [("            if n_dims > 3 or n_dims < 2:", "            if n_dims < 2:")]),
     ("changed: Translation constructed without checks in init_identity", "violation", "menpo/transform/homogeneous/translation.py",
      [("        return Translation(np.zeros(n_dims))", "        return Translation(np.zeros(n_dims), skip_checks=True)")]),
+    ("harmless: the degrees conversion factored into a module-level helper", "ok", ROT,
+     [("# TODO build rotations about axis, euler angles etc\n",
+       "def _to_radians(angle, degrees):\n    if degrees:\n        return np.deg2rad(angle)\n    return angle\n\n\n# TODO build rotations about axis, euler angles etc\n"),
+      ("        if degrees:\n            theta = np.deg2rad(theta)\n        return Rotation(\n            np.array([[np.cos(theta), -np.sin(theta)], [np.sin(theta), np.cos(theta)]]),",
+       "        theta = _to_radians(theta, degrees)\n        return Rotation(\n            np.array([[np.cos(theta), -np.sin(theta)], [np.sin(theta), np.cos(theta)]]),")]),
+    ("changed: a module-level helper that converts when degrees is False", "violation", ROT,
+     [("# TODO build rotations about axis, euler angles etc\n",
+       "def _to_radians(angle, degrees):\n    if not degrees:\n        return np.deg2rad(angle)\n    return angle\n\n\n# TODO build rotations about axis, euler angles etc\n"),
+      ("        if degrees:\n            theta = np.deg2rad(theta)\n        return Rotation(\n            np.array([[np.cos(theta), -np.sin(theta)], [np.sin(theta), np.cos(theta)]]),",
+       "        theta = _to_radians(theta, degrees)\n        return Rotation(\n            np.array([[np.cos(theta), -np.sin(theta)], [np.sin(theta), np.cos(theta)]]),")]),
     ("changed: PointCloud.centre is the centre of the bounds", "violation", PCL,
      [("        return np.mean(self.points, axis=0)\n", "        return self.centre_of_bounds()\n")]),
 ]
